@@ -133,6 +133,7 @@ class Evaluator:
         self.opaque = set(opaque)
         self.notes = []
         self.effects = []      # (condition term or None, call term, node) of statement-level opaque calls
+        self.eigen_kinds = False   # opt-in: a local declared Eigen::Matrix / Eigen::Array records its algebra kind
 
     # ---- public -------------------------------------------------------------
     def function_value(self, f, args=None, this=("this",), depth=0):
@@ -179,6 +180,10 @@ class Frame:
                 val = v if cond is None or val is None else ("ite", cond, v, val)
             else:
                 val = ("ite", cond, v, val)
+        if self.ev.eigen_kinds and isinstance(val, tuple) and val and val[0] not in ("mat", "num", "unknown", "obj", "void"):
+            mk_ = re.search(r"^(const )?Eigen::(Matrix|Array)<", str(self.f.get("ret") or ""))
+            if mk_:
+                val = ("call", "matrix" if mk_.group(2) == "Matrix" else "array", (val,))
         return val
 
     def cond_now(self):
@@ -234,6 +239,11 @@ class Frame:
                         v = sv
                     elif self.is_model_object(d) and not d.get("ref"):
                         v = ("obj", d["name"], self.fz(v), ())
+                    if self.ev.eigen_kinds and isinstance(v, tuple) and v and v[0] not in ("mat", "num", "unknown", "obj"):
+                        # Matrix(Array) / Array(Matrix) conversions change the meaning of `*`: keep the declared kind
+                        mk_ = re.search(r"Eigen::(Matrix|Array)<", str(d.get("t") or ""))
+                        if mk_:
+                            v = ("call", "matrix" if mk_.group(1) == "Matrix" else "array", (v,))
                     self.env[d["id"]] = v
                 elif self.is_plain_aggregate(d):
                     sv = StructVal(d["name"], (d.get("t") or "").replace("const ", "").strip())
